@@ -15,14 +15,12 @@ TL = f"{CORE}:TagList.get_html_string"
 TG = f"{CORE}:Tag.get_html_string"
 _WS = ("EOL", "INDENT", "REP", "VAR")
 
-_cache: Dict[int, Model] = {}
-
-
 def model(ctx: Ctx) -> Model:
-    k = id(ctx.prog)
-    if k not in _cache:
-        _cache[k] = extract(ctx.prog)
-    m = _cache[k]
+    # cached on the program object (one model per parsed tree)
+    m = ctx.prog.__dict__.get("_render_model")
+    if m is None:
+        m = extract(ctx.prog)
+        ctx.prog.__dict__["_render_model"] = m
     for a, b in m.stats.items():
         ctx.counters[a] = b
     return m
